@@ -89,6 +89,8 @@ def check(model: Model, run: Run) -> None:
     from .c19 import parse_results_fresh
     parse_results_fresh(model, run, SCHEMA, "G9-parse-results-are-fresh", "what a definition parses to")
     keyword_combinations(model, run)
+    normalised_text_is_what_gets_used(model, run)
+    every_extension_is_stored(model, run)
     from .c16 import parsed_numbers_kept
     parsed_numbers_kept(model, run, "G11-parsed-zero-is-a-value")
     hooks_store_fields_as_given(model, run, [f"{SCHEMA}.{c}" for c in CLASSES], "G10-results-hold-what-was-parsed",
@@ -159,6 +161,92 @@ def hooks_store_fields_as_given(model: Model, run: Run, classes, rule: str, cons
                 run.fail(Finding(rule, mt.qualname, f"{fname}|{norm(x)[:70]}", f"{q.split('sansldap.')[-1]}.{hook} re-writes field `{fname}` (`{norm(x)[:70]}`): {consequence}",
                                  model.loc(mt.module, x)))
     run.coverage.setdefault("constructor_hooks", {})[rule] = n
+
+
+def normalised_text_is_what_gets_used(model: Model, run: Run, rule: str = "G12-quotes-removed-before-the-text-is-read") -> None:
+    """G12: once a piece of the matched text has had its quotes removed into another local (`syntax = raw_syntax.strip("'")`),
+    the parse goes on with that local: reading the original again (matching NOIDLEN against the still quoted text, storing
+    it) handles the Active Directory quoted-SYNTAX form differently from the bare one."""
+    from ..anchors import reachable
+    seen = {}
+    for cname in CLASSES:
+        fi = model.find_method(f"{SCHEMA}.{cname}", "from_string")
+        if fi is not None:
+            for f_ in reachable(model, fi, SCHEMA):
+                if not isinstance(f_.node, ast.Lambda):
+                    seen[f_.qualname] = f_
+    n = 0
+    for fq, fi in sorted(seen.items()):
+        for a in walk_no_nested(fi.node):
+            if not (isinstance(a, ast.Assign) and len(a.targets) == 1 and isinstance(a.targets[0], ast.Name)):
+                continue
+            v = a.value
+            if not (isinstance(v, ast.Call) and isinstance(v.func, ast.Attribute) and v.func.attr in ("strip", "lstrip", "rstrip") and isinstance(v.func.value, ast.Name)
+                    and v.args and isinstance(v.args[0], ast.Constant) and isinstance(v.args[0].value, str) and "'" in v.args[0].value):
+                continue
+            raw, new = v.func.value.id, a.targets[0].id
+            if raw == new:
+                continue
+            n += 1
+            # reads of the quoted original later in the same block (or in blocks nested in it)
+            later = None
+            for par in ast.walk(fi.node):
+                for fld in ("body", "orelse", "finalbody"):
+                    blk = getattr(par, fld, None)
+                    if isinstance(blk, list) and any(b is a for b in blk):
+                        idx = [i for i, b in enumerate(blk) if b is a][0]
+                        for b in blk[idx + 1:]:
+                            for x in ast.walk(b):
+                                if isinstance(x, ast.Name) and x.id == raw and isinstance(x.ctx, ast.Load) and later is None:
+                                    later = x
+            ok = later is None
+            run.ob(rule, ok, {"function": fi.name, "quoted": raw, "unquoted": new})
+            if not ok:
+                run.fail(Finding(rule, fq, f"{raw}|{new}", f"{fi.name} reads `{raw}` again after its quotes were removed into `{new}`: the quoted and the bare spelling of the same value "
+                                 "are parsed differently from there on", model.loc(fi.module, later)))
+    run.ob(rule, True, {"dequoting_assignments": n})
+
+
+def every_extension_is_stored(model: Model, run: Run, rule: str = "G13-every-extension-is-stored") -> None:
+    """G13: the extension parser stores an entry for every `X-name` it reads: in the loop over the extension text every
+    iteration that completes puts the key into the result (or yields it).  `xstring SP qdstrings` allows an empty list -
+    a key that is dropped because its list is empty is a field of the result that differs from what the grammar denotes."""
+    from ..props.c07 import must_pass
+    from ..rx.sites import group_accesses
+    n = 0
+    seen = set()
+    for cname in CLASSES:
+        fi = model.func(f"{SCHEMA}.{cname}.from_string")
+        ext_nodes = {id(c) for c, _, g in group_accesses(fi.node) if g == "extensions"}
+        ext_vars = {t.id for n_ in ast.walk(fi.node) if isinstance(n_, ast.Assign) and id(n_.value) in ext_nodes for t in n_.targets if isinstance(t, ast.Name)}
+        target = None
+        for n_ in ast.walk(fi.node):
+            if isinstance(n_, ast.Call) and isinstance(n_.func, ast.Name) and n_.args and ((isinstance(n_.args[0], ast.Name) and n_.args[0].id in ext_vars) or id(n_.args[0]) in ext_nodes):
+                q = model.resolve_name(SCHEMA, n_.func.id)
+                if q in model.functions:
+                    target = model.functions[q]
+        if target is None or target.qualname in seen:
+            continue
+        seen.add(target.qualname)
+        # the result: the dict that is returned (or the pairs that are yielded)
+        rets = [r.value.id for r in walk_no_nested(target.node) if isinstance(r, ast.Return) and isinstance(r.value, ast.Name)]
+        loops = [w for w in walk_no_nested(target.node) if isinstance(w, ast.While)]
+        for w in loops[:1]:
+            def hit(x) -> bool:
+                if isinstance(x, ast.Assign) and any(isinstance(t_, ast.Subscript) and isinstance(t_.value, ast.Name) and t_.value.id in rets for t_ in x.targets):
+                    return True
+                if isinstance(x, ast.Call) and isinstance(x.func, ast.Attribute) and isinstance(x.func.value, ast.Name) and x.func.value.id in rets and \
+                        x.func.attr in ("setdefault", "update", "__setitem__"):
+                    return True
+                return isinstance(x, (ast.Yield, ast.YieldFrom))
+            n += 1
+            ok = must_pass(w.body, hit)
+            run.ob(rule, ok, {"function": target.name})
+            if not ok:
+                run.fail(Finding(rule, target.qualname, "iteration-without-store", f"{target.name}: an iteration of the loop over the extension text can finish without storing the "
+                                 "extension it has just read", model.loc(target.module, w)))
+    if n == 0:
+        run.note("G13: the extension parser has no loop of its own here: not decided")
 
 
 def keyword_combinations(model: Model, run: Run) -> None:
